@@ -8,7 +8,7 @@ rep = json.load(open(sys.argv[1]))
 w = rep["violation"]["witness"]
 case = {k: v for k, v in rep["case"].items() if k in ("det", "kind", "family")}
 lit = {}
-for k in ("params", "stream", "bits", "cfg", "detector", "batches", "data", "calls", "history", "dtype", "ref_dtype", "build_dtype", "s1", "s2", "k", "fills", "count_ubound", "prop", "resets", "numpy_params", "pairs", "columns"):
+for k in ("params", "stream", "bits", "cfg", "detector", "batches", "data", "calls", "history", "dtype", "ref_dtype", "build_dtype", "s1", "s2", "k", "fills", "count_ubound", "prop", "resets", "numpy_params", "pairs", "columns", "float32_fills"):
     if k in w:
         lit[k] = w[k]
 case["literal"] = lit
